@@ -22,15 +22,25 @@ KINDS = {MapType.ARRAY: "array", MapType.PERCPU_ARRAY: "percpu_array",
          MapType.PROG_ARRAY: "prog_array"}
 
 
+REAL_MAPS = False        # C05: create the maps in the running kernel
+_real_create_map = _bpf.create_map
+
+
 class Registry:
     def __init__(self):
         self.maps = []
 
     def create_map(self, map_type, key_size, value_size, max_entries,
                    attributes=None):
-        fd = len(self.maps) + 3
+        if REAL_MAPS:
+            args = (map_type, key_size, value_size, max_entries) + \
+                (() if attributes is None else (attributes,))
+            fd = _real_create_map(*args)
+        else:
+            fd = len(self.maps) + 3
         self.maps.append(MapInfo(fd, KINDS[map_type], key_size, value_size,
                                  max_entries))
+        self.maps[-1].real = REAL_MAPS
         return fd
 
 
@@ -53,8 +63,22 @@ except Exception:       # pragma: no cover
     _ec = None
 
 
+def close_maps(reg=None):
+    """close the kernel maps of a registry (REAL_MAPS mode)"""
+    import os
+    for m in (reg or REG).maps:
+        if getattr(m, "real", False):
+            try:
+                os.close(m.fd)
+            except OSError:
+                pass
+            m.real = False
+
+
 def new_registry():
     global REG
+    if REAL_MAPS:
+        close_maps(REG)
     REG = Registry()
     return REG
 
